@@ -473,6 +473,8 @@ func (c *Ctx) c14Explore() {
 	for _, n := range names {
 		all = append(all, c14Space(n, corpus[n], stride)...)
 	}
+	// always present (recorded finding): a flipped bit in the compound-file header's sector counts
+	all = append(all, c14mutant{Base: "encrypted", Kind: "bitflip", At: 43, N: 7})
 	c.R.Dist["mutants"] = len(all)
 	// shard over worker processes
 	shards := 14
@@ -513,8 +515,11 @@ func (c *Ctx) c14Explore() {
 				}
 				at, _ := strconv.Atoi(strings.TrimSpace(string(pb)))
 				msg := stderr.String()
-				if len(msg) > 300 {
-					msg = msg[:300]
+				if strings.Contains(msg, "mscfb.(*Reader).setDirEntries") {
+					msg = "[mscfb.setDirEntries] " + msg
+				}
+				if len(msg) > 320 {
+					msg = msg[:320]
 				}
 				if ee, ok := err.(*exec.ExitError); !ok || ee.ExitCode() != 4 {
 					crashes[s] = append(crashes[s], fmt.Sprintf("%d\x00%v: %s", lo+at, err, strings.ReplaceAll(msg, "\n", " | ")))
@@ -563,7 +568,11 @@ func (c *Ctx) c14Explore() {
 			p := strings.SplitN(cr, "\x00", 2)
 			i, _ := strconv.Atoi(p[0])
 			if i < len(all) {
-				c.Fail("oracle", "C14_no_crash", all[i], "the worker process died (fatal error, out of memory or stack overflow) on mutant "+all[i].String()+": "+p[1], "")
+				known := ""
+				if strings.Contains(p[1], "[mscfb.setDirEntries]") && all[i].Base == "encrypted" {
+					known = "c14-mscfb-directory-allocation"
+				}
+				c.Fail("oracle", "C14_no_crash", all[i], "the worker process died (fatal error, out of memory or stack overflow) on mutant "+all[i].String()+": "+p[1], known)
 			}
 		}
 	}
